@@ -24,7 +24,7 @@ ASSUMPTIONS = [
     "physical 'waiting' vs 'delayed' is only distinguished for due times more than 10 ms ahead (early delivery is C05's)",
     "no time-to-live on messages here (expiry is C12's)",
 ]
-REQUIRED = ["ops", "snapshots_compared", "consume_returns", "cancel_points", "drain_audits", "jumps_to_exact_due_time", "concurrent_pairs", "empty_payload_messages"]
+REQUIRED = ["ops", "snapshots_compared", "consume_returns", "cancel_points", "drain_audits", "jumps_to_exact_due_time", "concurrent_pairs", "empty_payload_messages", "messages_sharing_a_due_instant"]
 SHARD_TIMEOUT = {"quick": 900, "thorough": 3600}
 CASE_TIMEOUT = 120
 
@@ -267,6 +267,17 @@ async def run_history(loop, case, out, stats, trace):
                 conn = rnd.choice(conns)
                 p = mk_params(conn, rnd, now())
                 q, t, pr = rnd.choice(queues), rnd.choice(topics), rnd.choice([0, 5, 9])
+                twins_in_time = [m for m in model.values() if m.place == "queued" and m.due is not None and m.due > now() + timedelta(seconds=0.05)]
+                if twins_in_time and rnd.random() < 0.3:
+                    # due at the very same instant as a message that is already waiting (batch imports, cron lines), in the
+                    # same queue and priority, usually under another topic
+                    other = rnd.choice(twins_in_time)
+                    from repid.data._parameters import DelayProperties as _DP
+
+                    p = type(p)(retries=p.retries, delay=_DP(next_execution_time=other.due), execution_timeout=p.execution_timeout)
+                    q, pr = other.queue, other.prio
+                    t = rnd.choice([x for x in topics if x != other.topic] or topics)
+                    stats["messages_sharing_a_due_instant"] += 1
                 # (the empty string is the payload of every job enqueued without arguments, and enqueue()'s own default)
                 payload = f"payload-{id_}" if rnd.random() < 0.75 else ""
                 if payload == "":
